@@ -30,4 +30,19 @@ def frameBits (pos : Nat) : List Bool :=
 /-- `outbuf_size` for a stream whose last slice ended at `pos` -/
 def frameBytes (pos : Nat) : Nat := (pos + (frameBits pos).length) / 8
 
+/-- the slice header fields `encode_slice` writes after `ZDIV` -/
+def putSliceHeader (nvalues wdiv : Nat) (trunc newPal : Bool) : List Bool :=
+  putBits 15 (nvalues - 1) ++ putBits 3 wdiv ++ putBits 1 (if trunc then 1 else 0) ++
+    putBits 1 (if newPal then 1 else 0)
+
+/-- the palette entries, `palbits` bits each -/
+def putPaletteEntries (palbits : Nat) : List Nat → List Bool
+  | [] => []
+  | v :: vs => putBits palbits v ++ putPaletteEntries palbits vs
+
+/-- the palette section `encode_slice` writes when `new_palette` is set
+    (`PALSIZE` holds `max(0, palsize-1)`, `PALBITS` holds `palbits-2`) -/
+def putPaletteHeader (dirofs palbits : Nat) (lut : List Nat) : List Bool :=
+  putBits 5 dirofs ++ putBits 5 (lut.length - 1) ++ putBits 3 (palbits - 2) ++ putPaletteEntries palbits lut
+
 end VelaVerif.Mlw
